@@ -38,8 +38,8 @@ def dispatch (line : String) : String :=
   | "inv" :: args => handleInv args
   | "ms" :: args => handleMs args
   | "bi" :: args => handleBuiltins args
-  | "enc" :: args => handleEnc args
-  | "dec" :: args => handleDec args
+  | "enc" :: args => EncDrv.handleEnc args
+  | "dec" :: args => EncDrv.handleDec args
   | _ => "bad-op"
 
 partial def loop (h : IO.FS.Stream) (out : IO.FS.Stream) : IO Unit := do
